@@ -50,6 +50,8 @@ def bounds(quick):
         nary_widths=(1, 2, 3) if quick else (1, 2, 3, 4),    # Min/MaxBV, n-ary BV operators, AllDifferent
         nary_max=4 if quick else 5,          # AtMostOne/ExactlyOne/AllDifferent/BVAnd/...
         minmax_max=5,
+        minmax_high=12 if quick else 17,     # Min/Max over small pools (3 values up to arity 7, then 2)
+        minmaxbv_high=(lambda w: {1: 12 if quick else 17, 2: 7 if quick else 9}.get(w, 0)),
         minmaxbv_max=(lambda w: 5 if (quick and w <= 3) or (not quick) else 4),
         concat_widths=(1, 2) if quick else (1, 2, 3),
         concat_max=4,
@@ -323,9 +325,10 @@ def L(v):
 
 
 class Case(object):
-    __slots__ = ("group", "name", "api", "args", "call", "ref", "rs", "must", "key", "cost")
+    __slots__ = ("group", "name", "api", "args", "call", "ref", "rs", "must", "key", "cost", "dom")
 
-    def __init__(self, group, name, api, args, call, ref, rs, must):
+    def __init__(self, group, name, api, args, call, ref, rs, must, dom=None):
+        self.dom = dom or DOM     # value pools of the symbolic arguments (smaller for the high arities)
         self.group, self.name, self.api = group, name, api
         self.args = tuple(args)
         self.call = call          # call(apiobj, *python arguments) -> FNode
@@ -336,7 +339,7 @@ class Case(object):
         c = 1
         for a in self.args:
             if a[0] == "s":
-                c *= len(sort_values(a[1], DOM))
+                c *= len(sort_values(a[1], self.dom))
         self.cost = c
 
     def kinds(self):
@@ -387,11 +390,11 @@ def ctor_cases(quick):
     out = []
     keys = set()
 
-    def add(name, args, ref, rs, must=True, call=None, apis=("mgr", "shortcuts"), variant=""):
+    def add(name, args, ref, rs, must=True, call=None, apis=("mgr", "shortcuts"), variant="", dom=None):
         for api in apis:
             if api == "shortcuts" and not hasattr(SHORTCUTS, name):
                 continue               # not every manager constructor has a shortcut
-            c = Case("ctor", name + variant, api, args, call or _attr(name), ref, rs, must)
+            c = Case("ctor", name + variant, api, args, call or _attr(name), ref, rs, must, dom)
             if c.key not in keys:      # the 0-ary application is the same case for every sort
                 keys.add(c.key)
                 out.append(c)
@@ -422,8 +425,17 @@ def ctor_cases(quick):
                 add(nm, [S(T)] * n, ref if n else None, T if n else None, must=n > 0)
                 if 1 <= n <= 3:
                     add(nm, [S(T)] * n, ref, T, call=_attr_list(nm), variant="[list]")
+        # high arities (the encoding is a tree over the argument list: every shape of the split up to
+        # the bound), over pools of three / two values: every position can hold the strict extreme
+        for n in range(B["minmax_max"] + 1, B["minmax_high"] + 1):
+            small = {INT: (-1, 0, 2), REAL: (Fraction(-1, 2), Fraction(0), Fraction(2))} if n <= 7 else \
+                    {INT: (-1, 2), REAL: (Fraction(-1, 2), Fraction(2))}
+            for nm, f in (("Min", min), ("Max", max)):
+                ref = (lambda f: lambda *v: f(v))(f)
+                add(nm, [S(T)] * n, ref, T, apis=("mgr",), dom=small)
     for w in B["nary_widths"]:
-        for n in range(0, B["minmaxbv_max"](w) + 1):
+        for n in list(range(0, B["minmaxbv_max"](w) + 1)) + \
+                list(range(B["minmaxbv_max"](w) + 1, B["minmaxbv_high"](w) + 1)):
             for sign in (False, True):
                 for nm, f in (("MinBV", min), ("MaxBV", max)):
                     if sign:
@@ -823,7 +835,7 @@ def _run_case(env, case, res, seed):
                 % (case.key, shown, sort_str(fs), sort_str(case.rs)), dumped)
     n_def = n_undef = 0
     bad = None
-    for I in interps(symsorts, DOM):
+    for I in interps(symsorts, case.dom):
         vals = [I[nm] if nm is not None else litval(a[1]) for nm, a in zip(names, case.args)]
         try:
             want = norm(case.rs, case.ref(*vals))
